@@ -103,3 +103,32 @@ func (w *RecWriter) Write(p []byte) (int, error) {
 	Trace = append(Trace, Event{Name: "(io.Writer).Write", Args: []interface{}{w, append([]byte(nil), p...)}, Rets: []interface{}{len(p), error(nil)}})
 	return len(p), nil
 }
+
+// ---------------------------------------------------------------------------------------------------------
+// Maps and pre-state
+
+// ghostOnly is the panic value of helpers that only the verifier can evaluate.
+type ghostOnly struct{}
+
+// GhostOnly marks a clause that cannot be executed (it speaks about the pre-state or quantifies over all keys).
+var GhostOnly = ghostOnly{}
+
+// ForallKey reports whether f holds for every key of the key type (the verifier quantifies over the whole key
+// sort; executed, it can only range over the keys present - clauses guard with Has, so both readings agree).
+func ForallKey[K comparable, V any](m map[K]V, f func(K) bool) bool {
+	for k := range m {
+		if !f(k) {
+			return false
+		}
+	}
+	return true
+}
+
+// Has reports whether key k is present in m.
+func Has[K comparable, V any](m map[K]V, k K) bool { _, ok := m[k]; return ok }
+
+// Old evaluates f in the heap of function entry (captured variables keep their current values). Verifier only.
+func Old[T any](f func() T) T { panic(GhostOnly) }
+
+// Ranged reports whether key k was already produced by the active range loop over m. Verifier only.
+func Ranged[K comparable, V any](m map[K]V, k K) bool { panic(GhostOnly) }
